@@ -15,7 +15,7 @@ def main(outdir, ids):
         assert rc == 0, o
         res = {}
         env = dict(os.environ, PYTHONPATH=wt, PYTHONWARNINGS='ignore')
-        for k in (1, 2, 3):
+        for k in (1, 2, 3, 4):
             d = '%s/%s' % (outdir, pid)
             patch, demo = '%s/patch%d.diff' % (d, k), '%s/demo%d.py' % (d, k)
             if not os.path.exists(patch):
